@@ -12,6 +12,7 @@ import sys
 import tempfile
 
 VERIF = os.path.dirname(os.path.dirname(os.path.abspath(__file__)))
+PYTHON = '/venv/bin/python' if os.access('/venv/bin/python', os.X_OK) else sys.executable
 
 
 def scratch_base():
@@ -61,7 +62,7 @@ def run_variant(prop, root, variant):
         if why is not None:
             return {'name': variant['name'], 'status': 'skipped', 'why': why}
         proc = subprocess.run(
-            [sys.executable, os.path.join(VERIF, 'run_check.py'), prop,
+            [PYTHON, os.path.join(VERIF, 'run_check.py'), prop,
              '--root', base, '--tier', 'quick'],
             capture_output=True, text=True, timeout=300,
             env=dict(os.environ, PYTHONDONTWRITEBYTECODE='1'))
